@@ -1,4 +1,5 @@
 import AtreeProofs.Props.C13
+import AtreeProofs.Props.C13Ids
 import AtreeProofs.Props.C12Shape
 import AtreeProofs.Map.InsertionOrderSpec
 import AtreeProofs.Map.InsertionOrderLemmas
@@ -28,7 +29,7 @@ import AtreeProofs.E2EMap.History
     `map_ro_iter_eq_toList`, `map_keys_values_projections`, `map_loaded_all_eq_toList`;
     `map_pop_eq_reverse` for the reverse): corollary `map_iterators_in_insertion_order` states the
     result for `iterMutable`, `iterMutableKeys`, `iterReadOnly`, `iterReadOnlyKeys` and the loaded-value
-    iterator, with the hypotheses those theorems need (`leafIdsOk` for the read-only flavours).
+    iterator, with NO hypothesis about slab identifiers (`C13.map_ro_iter_history`, Props/C13Ids.lean).
 
   The only way a `Set` is refused is the collision limit; the caller sees the refusal as an error, so
   the specification is a function of the OBSERVED history (`observe`: requests with their
@@ -414,9 +415,9 @@ theorem map_enumeration_determined_no_refusal (T : Nat) (hT : legalThreshold T =
   rfl
 
 /-- The same for what the ITERATORS yield after the history (they all yield `toList`): the mutable
-    iterator and its keys-only flavour; the loaded-value iterator with everything loaded; and, when
-    the data-slab IDs are pairwise different and defined (`leafIdsOk`, the hypothesis of
-    `map_ro_iter_eq_toList`), the read-only iterator and its keys-only flavour. -/
+    iterator and its keys-only flavour; the loaded-value iterator with everything loaded; and the
+    read-only iterator and its keys-only flavour (no identifier hypothesis: the slab IDs of a map
+    reached by a history are distinct and defined, `C13.map_ro_iter_history`). -/
 theorem map_iterators_in_insertion_order (T : Nat) (hT : legalThreshold T = true) (D : DigestFn (r + 1))
     (cfg : MCfg) (hcT : cfg.T = T) (hcL : cfg.L = r + 1) (ty : Nat) (seedOf : SlabID → Nat) (c0 : Ctx)
     (ops : List MOp) (hok : ∀ op ∈ ops, op.Ok T D) :
@@ -426,19 +427,22 @@ theorem map_iterators_in_insertion_order (T : Nat) (hT : legalThreshold T = true
     (∃ L, m.iterMutable cfg = .ok L ∧ L.map (·.1) = order) ∧
     m.iterMutableKeys cfg = .ok order ∧
     (∀ loaded : SlabID → Bool, (∀ id, loaded id = true) → (m.iterLoaded loaded).map (·.1) = order) ∧
-    (m.leafIdsOk = true → (∃ L, m.iterReadOnly = .ok L ∧ L.map (·.1) = order) ∧ m.iterReadOnlyKeys = .ok order) := by
+    (∃ L, m.iterReadOnly = .ok L ∧ L.map (·.1) = order) ∧ m.iterReadOnlyKeys = .ok order := by
   intro st0 m order
   have hg0 : Good T D cfg st0 := Good.new hT hcT hcL ty seedOf c0
   have hg := good_runM T hT D cfg ops st0 hg0 hok
   have hdet : m.toList.map (·.1) = order := map_enumeration_determined T hT D cfg hcT hcL ty seedOf c0 ops hok
   have hkv := map_keys_values_projections T hT D cfg m hg.cfgok hg.inv
-  refine ⟨⟨m.toList, map_mut_iter_eq_toList T hT D cfg m hg.cfgok hg.inv, hdet⟩, ?_, ?_, ?_⟩
+  refine ⟨⟨m.toList, map_mut_iter_eq_toList T hT D cfg m hg.cfgok hg.inv, hdet⟩, ?_, ?_, ?_, ?_⟩
   · rw [hkv.1, hdet]
   · intro loaded hall
     rw [map_loaded_all_eq_toList T D m hg.inv loaded hall, hdet]
-  · intro hids
-    refine ⟨⟨m.toList, map_ro_iter_eq_toList T hT D cfg m hg.cfgok hg.inv hids, hdet⟩, ?_⟩
-    rw [(hkv.2.2 hids).1, hdet]
+  · obtain ⟨hro, hrok, _, _⟩ := map_ro_iter_history T hT D cfg hcT hcL ty seedOf c0 ops hok ops.length m
+      (by rw [List.take_length])
+    exact ⟨m.toList, hro, hdet⟩
+  · obtain ⟨_, hrok, _, _⟩ := map_ro_iter_history T hT D cfg hcT hcL ty seedOf c0 ops hok ops.length m
+      (by rw [List.take_length])
+    rw [hrok, hdet]
 
 /-! ## c. Non-vacuity
 
